@@ -20,6 +20,9 @@ META = {
     "assumptions": ["finite floats as reals; NaN and infinities are concrete Python floats on their own paths"],
 }
 
+from engine import monitor as _monitor          # noqa: E402
+META["audit"] = lambda: _monitor.audit(('H1',))
+
 
 def args_ok(log, decls):
     for i, arg in enumerate(log):
